@@ -280,6 +280,7 @@ def run(prop, tier="quick", seed=0, jobs=16):
         "obligations": obligations, "discharged": discharged, "backends": backends,
         "solver_time_s": round(sum(r.get("solver_time_s", 0) for r in results), 3),
         "functions": functions, "assumed_contracts": sorted(assumed), "inlined": sorted(inlined), "trusted_contracts": trusted,
+        "externals": dict(getattr(reg, "externals", {})),
         "violations": violations, "degraded": degraded, "not_proved": not_proved, "not_run_in_quick": skipped_heavy,
         "native": {k: v[1] for k, v in native.items()},
         "samples": _samples(results),
